@@ -97,7 +97,7 @@ class Program:
                 decs = [ast.unparse(d) for d in m.decorator_list]
                 if any(d.split('.')[-1] == 'overload' for d in decs): continue      # typing.overload stubs: the real definition follows
                 if kind == 'setter' and not any(d.endswith('.setter') for d in decs): continue
-                if kind == 'getter' and 'property' not in decs: continue
+                if kind == 'getter' and not any(d.split('.')[-1].split('(')[0].endswith('property') for d in decs): continue
                 return c, m
         return None, None
     def mro(s, cls):
@@ -265,6 +265,8 @@ class Exec:
                 st0 = State({}, Heap(alloc=IntVal(1)), [])
                 s.consts[name] = s.ev(st0, s.p.consts[name]); s.axioms += st0.pc + st0.defs
         return s.consts[name]
+    def ev_NamedExpr(s, st, e):
+        v = s.ev(st, e.value); st.env[e.target.id] = v; return v
     def ev_Tuple(s, st, e):
         vs = [s.ev(st, x) for x in e.elts]; return SV(tuple(vs), TupT([v.ty for v in vs]))
     def ev_UnaryOp(s, st, e):
@@ -575,7 +577,7 @@ class Exec:
             for m in s.p.classes[c].methods.get(name, []):
                 decs = [ast.unparse(d) for d in m.decorator_list]
                 if kind == 'setter' and not any(d.endswith('.setter') for d in decs): continue
-                if kind == 'getter' and 'property' not in decs: continue
+                if kind == 'getter' and not any(d.split('.')[-1].split('(')[0].endswith('property') for d in decs): continue
                 if kind is None and any(d.endswith('.setter') for d in decs): continue
                 return c, m
         return None, None
@@ -723,9 +725,15 @@ class Exec:
         tvs = dict(s.p.tv, Self=cls_arg or owner)
         for a_ in fdef.args.args:
             v = env.get(a_.arg)
-            if a_.annotation is None or not isinstance(v, SV) or v.ty.kind not in ('list', 'none'): continue
+            if a_.annotation is None or not isinstance(v, SV) or v.ty.kind not in ('list', 'none', 'ref'): continue
             try: pty = parse_ann(a_.annotation, tvs)
             except Exception: continue
+            if v.ty.kind == 'ref':
+                # a parameter annotated with a subclass of the argument's static class: a downcast, justified by an obligation on the dynamic class
+                if pty is not None and pty.kind == 'ref' and pty.arg != v.ty.arg and pty.arg in s.p.classes and v.ty.arg in s.p.classes and v.ty.arg in s.p.mro(pty.arg)[1:]:
+                    s.oblige(st, f'downcast[{a_.arg}: {v.ty.arg} -> {pty.arg}]', Or(v.t == 0, s.isinst(v, pty.arg)), 'safety')
+                    env[a_.arg] = SV(v.t, pty)
+                continue
             if v.ty == NONE:
                 if pty is not None and pty.kind == 'ref': env[a_.arg] = SV(v.t, pty)
                 continue
@@ -868,6 +876,7 @@ class Exec:
         else: res = SV(fresh('res', sort_of(rty) if rty else I), rty or NONE)
         if rty and rty.kind == 'list': res = s.list_sv(st, res.t, rty)
         if rty and rty.kind in ('ref', 'list'): st.defs.append(And(res.t >= 0, res.t < st.heap.alloc))
+        if rty and rty.kind == 'ref' and rty.arg in s.p.classes: st.defs.append(Or(res.t == 0, s.isinst(res, rty.arg)))      # the dynamic class refines the declared one
         st3 = st.fork(); st3.env = dict(env, result=res); st3.old = snapshot; st3.old_env = dict(env)
         for e in c.ensures:
             if s.uses(e): st.pc.append(s.spec_bool(st3, e))
@@ -926,6 +935,33 @@ class Exec:
         a = st.fork(); a.pc.append(c); b = st.fork(); b.pc.append(Not(c))
         if not is_false(cs): yield from s.run(a, n.body, ctx)          # statically dead branches (type tests on the static type) are not executed
         if not is_true(cs): yield from s.run(b, n.orelse, ctx)
+    def pattern_cond(s, st, pat, v, binds):
+        if isinstance(pat, ast.MatchAs):
+            if pat.pattern is None:
+                if pat.name is not None: binds[pat.name] = v
+                return BoolVal(True)
+            c = s.pattern_cond(st, pat.pattern, v, binds)
+            if pat.name is not None: binds[pat.name] = v
+            return c
+        if isinstance(pat, ast.MatchSingleton) and pat.value is None: return v.t == 0
+        if isinstance(pat, ast.MatchClass) and not pat.patterns and not pat.kwd_patterns:
+            cn = pat.cls.id if isinstance(pat.cls, ast.Name) else pat.cls.attr
+            if v.ty.kind == 'ref' and v.ty.arg in s.p.classes and cn in s.p.mro(v.ty.arg): return v.t != 0
+            return s.isinst(v, cn)
+        if isinstance(pat, ast.MatchSequence) and v.ty.kind == 'tuple' and len(pat.patterns) == len(v.t):
+            return And([s.pattern_cond(st, p_, x_, binds) for p_, x_ in zip(pat.patterns, v.t)])
+        raise Unsupported(f'match pattern {ast.unparse(pat)}')
+    def st_Match(s, st, n, ctx):
+        subj = s.ev(st, n.subject)
+        rest = st
+        for case in n.cases:
+            if case.guard is not None: raise Unsupported('match guard')
+            binds = {}
+            c = s.pattern_cond(rest, case.pattern, subj, binds)
+            a = rest.fork(); a.pc.append(c); a.env = dict(a.env, **binds)
+            if not is_false(simplify(c)): yield from s.run(a, case.body, ctx)
+            nxt = rest.fork(); nxt.pc.append(Not(c)); rest = nxt
+        yield rest          # no case matched: falls through
     def st_AnnAssign(s, st, n, ctx):
         if n.value is None: yield st; return
         v = None
@@ -1281,6 +1317,7 @@ def generate(ex, owner, name, kind=None):
         else:
             sv = SV(v if ty != BOOL else Bool('v_' + a.arg), ty)
             if ty.kind in ('ref', 'list'): st.defs.append(And(v >= 0, v < st.heap.alloc))
+            if ty.kind == 'ref' and ty.arg in p.classes: st.defs.append(Or(v == 0, ex.isinst(SV(v, ty), ty.arg)))
             if i == 0 and owner and 'staticmethod' not in decs: st.defs.append(v > 0)
             if ty.kind == 'list': st.defs.append(v > 0); sv = ex.list_sv(st, v, ty)
         st.env[a.arg] = sv
